@@ -5,6 +5,7 @@ package main
 import (
 	"fmt"
 	"regexp"
+	"strconv"
 	"strings"
 
 	"golang.org/x/tools/go/ssa"
@@ -159,23 +160,49 @@ func (w *World) verifyContract(con *Contract, opts *RunOpts) (res *FuncResult) {
 				found := false
 				for k, p := range fn.Params {
 					if p.Name() == pn {
+						found = true
+						if len(shp) >= 2 && shp[0] == '"' {
+							sv, err := strconv.Unquote(shp)
+							if err != nil {
+								panic(specPanic{con.Pos + ": option after-call: bad string " + shp})
+							}
+							args0[k] = lit(sv)
+							continue
+						}
 						alts, ok := e.customShape(pn, p.Type(), shp)
 						if !ok || len(alts) == 0 {
 							panic(specPanic{con.Pos + ": option after-call: shape " + shp + " not understood"})
 						}
 						v, _ := alts[0](st)
 						args0[k] = v
-						found = true
 					}
 				}
 				if !found {
 					panic(execPanic{"option after-call: no parameter " + pn})
 				}
 				outs0 := e.run(st, fn, args0)
-				if len(outs0) != 1 || outs0[0].Panic != "" {
-					panic(execPanic{fmt.Sprintf("option after-call: the first call has %d outcomes (one, not panicking, expected)", len(outs0))})
+				// several outcomes (a callee that may fail): the scenario continues after the
+				// first one that does not panic and returns no error
+				pick := -1
+				for k, o0 := range outs0 {
+					if o0.Panic != "" {
+						continue
+					}
+					failed := false
+					if n := len(o0.Rets); n > 0 {
+						if iv, ok := o0.Rets[n-1].(Iface); ok && iv.Dyn != nil && fn.Signature.Results().Len() == n && fn.Signature.Results().At(n-1).Type().String() == "error" {
+							failed = true
+						}
+					}
+					if !failed {
+						pick = k
+						break
+					}
 				}
-				st = outs0[0].St
+				if pick < 0 {
+					panic(execPanic{fmt.Sprintf("option after-call: none of the %d outcomes of the first call succeeds", len(outs0))})
+				}
+				st = outs0[pick].St
 			}
 			res.Stats.Shapes++
 			pre := st.snapshot()
@@ -282,8 +309,26 @@ func (w *World) verifyContract(con *Contract, opts *RunOpts) (res *FuncResult) {
 					var sk []*T
 					var defs []*T
 					ctx := &EvalCtx{sp: w.specs, env: env2, st: o.St, old: pre, skolems: &sk, ex: e, origin: name, defs: &defs}
-					goal := ctx.evalClause(en.Expr)
-					ob := &Oblig{Kind: "ensures", Name: name, Goal: goal, Tags: en.Tags, Skolems: sk, PathNo: pathNo, Where: en.Pos, Defs: defs}
+					where := en.Pos
+					goal := func() (g *T) {
+						defer func() {
+							if r := recover(); r != nil {
+								// a post that reads a field of, or dereferences, a nil value is not
+								// well defined on this path: on the unchanged tree every post is, so the
+								// state contradicts what the post presupposes (a result that is nil
+								// where the post speaks about its fields). A failed obligation, not an
+								// undecided contract. Any other spec error stays undecided.
+								if sp, ok := r.(specPanic); ok && strings.Contains(sp.msg, "of nil pointer") {
+									where = en.Pos + ": the post is not well defined on this path: " + sp.msg
+									g = tFalse
+									return
+								}
+								panic(r)
+							}
+						}()
+						return ctx.evalClause(en.Expr)
+					}()
+					ob := &Oblig{Kind: "ensures", Name: name, Goal: goal, Tags: en.Tags, Skolems: sk, PathNo: pathNo, Where: where, Defs: defs}
 					if len(ob.Tags) == 0 {
 						ob.Tags = con.Props
 					}
@@ -305,7 +350,7 @@ func (w *World) verifyContract(con *Contract, opts *RunOpts) (res *FuncResult) {
 							case ante.isFalse():
 							default:
 								// the first few paths, then a sample of the later ones
-								if anteQueries[name] < 4 || (anteQueries[name] < 24 && pathNo%5 == 0) {
+								if anteQueries[name] < 4 || (anteQueries[name] < 48 && (pathNo%5 == 0 || pathNo%7 == 3 || pathNo%11 == 6)) {
 									anteQueries[name]++
 									cov := &Oblig{Kind: "cover", Name: name + "@reachable", Goal: mkNot(ante), Expect: "sat", PathNo: pathNo}
 									e.emit(o.St, cov)
